@@ -19,6 +19,10 @@ SIZES = {"quick": dict(n=260), "thorough": dict(n=9000)}
 NODES_PER_MS = 100
 ROOTS_MANY = ["startpos", "fen r1bq1rk1/pp2bppp/2n1pn2/2pp4/3P1B2/2PBPN2/PP1N1PPP/R2QK2R w KQ - 0 8", "fen 8/2p5/3p4/KP5r/1R3p1k/8/4P1P1/8 w - - 0 1",
               "fen r3k2r/p1ppqpb1/bn2pnp1/3PN3/1p2P3/2N2Q1p/PPPBBPPP/R3K2R b KQkq - 0 1", "fen 6k1/5ppp/8/8/8/8/5PPP/4R1K1 b - - 0 1"]
+# pawnless roots of at most four men: the search starts by generating a tablebase inside the hash table (1-2 s of real time, no nodes);
+# the virtual clock advances 5 ms per progress report of the generator (sched/vsched.cpp)
+ROOTS_TB = ["fen 8/8/8/3k4/8/3K4/4Q2r/8 w - - 0 1", "fen 8/8/8/3k4/8/2NK4/4R3/8 b - - 0 1", "fen 8/8/2b5/3k4/8/3K4/4Q3/8 w - - 0 1",
+            "fen 8/8/8/3k4/8/1B1K4/4N3/8 w - - 0 1", "fen 8/8/8/3k4/8/3K4/4R3/8 w - - 0 1"]
 ROOTS_ONE = ["fen 7k/5Q2/6K1/8/8/8/8/8 b - - 0 1", "fen k7/2Q5/8/8/8/8/8/7K b - - 0 1", "fen 7k/8/8/8/8/8/5PPr/6K1 w - - 0 1"]
 
 
@@ -53,6 +57,21 @@ def gen(rnd):
             go += f" movestogo {rnd.choice([0, 1, 2, 5, 40, 100])}"
         g.update(kind="clock", go=go, movetime=0, time=t)
     g["mode"] = rnd.choice(["plain", "plain", "plain", "stop", "ponderhit", "ponderstop"])
+    g["tb"] = False
+    if rnd.random() < 0.12:
+        # table generation only starts with a hard limit of 3 s or more (or none: pondering); the command that ends the search arrives
+        # while the table is being generated
+        root = rnd.choice(ROOTS_TB)
+        wtm = " w " in root
+        g.update(root=root, one=False, tb=True, threads=rnd.choice([1, 1, 2]), maxnps=0, limit_strength=False)
+        if rnd.random() < 0.3:
+            mt = rnd.choice([4000, 20000, 100000])
+            g.update(kind="movetime", go=f"movetime {mt}", movetime=mt, time=0)
+        else:
+            t = rnd.choice([60000, 600000, 10**7])
+            wt, bt = (t, 1000) if wtm else (1000, t)
+            g.update(kind="clock", go=f"wtime {wt} btime {bt} winc 0 binc 0", movetime=0, time=t)
+        g["mode"] = rnd.choice(["stop", "stop", "ponderstop", "ponderhit", "plain"])
     return g
 
 
@@ -74,10 +93,10 @@ def run_one(bdir, g, net, idx, wd):
         ponder = g["mode"] in ("ponderhit", "ponderstop")
         eng.send("go " + ("ponder " if ponder else "") + g["go"])
         if g["mode"] == "stop" or g["mode"] == "ponderstop":
-            time.sleep(random.Random(idx).choice([0.0, 0.01, 0.05]))
+            time.sleep(random.Random(idx).choice([0.05, 0.2, 0.4, 0.8] if g.get("tb") else [0.0, 0.01, 0.05]))
             eng.send("stop")
         elif g["mode"] == "ponderhit":
-            time.sleep(random.Random(idx).choice([0.0, 0.01, 0.05, 0.2]))
+            time.sleep(random.Random(idx).choice([0.05, 0.2, 0.4, 0.8] if g.get("tb") else [0.0, 0.01, 0.05, 0.2]))
             eng.send("ponderhit")
         # searches with a huge budget are cut short by a stop after a while (that stop is part of the trace and is honoured by the spec)
         lines, ok = eng.read_until(lambda l: l.startswith("bestmove"), 2.5)
@@ -144,7 +163,8 @@ def run(tier, seed):
             for e in to_events(g, tp):
                 o.write(json.dumps(e) + "\n")
             os.remove(tp)
-        modes[g["mode"] + ("/one-move" if g["one"] else "")] = modes.get(g["mode"] + ("/one-move" if g["one"] else ""), 0) + 1
+        mk = g["mode"] + ("/one-move" if g["one"] else "") + ("/tablebase-root" if g.get("tb") else "")
+        modes[mk] = modes.get(mk, 0) + 1
         if i < 3:
             rep.sample({"go": g["go"], "root": g["root"], "BufferTime": g["buffer"], "Threads": g["threads"], "mode": g["mode"]})
     for f in fh:
@@ -156,6 +176,7 @@ def run(tier, seed):
     rep.cov["rule"] = ("log-uniform wtime/btime 1..1e7, inc 0..1e5, movestogo 0..100, movetime 1..1e5, BufferTime 1..10000, Ponder option, Threads 1..4, "
                        "roots with one and many legal moves, modes plain/stop/ponderhit/ponder+stop; virtual clock = 100 nodes per ms; distinct parameter vectors")
     rep.assumptions += ["MaxNPS is not exercised: its sleep is real time and does not advance the node-driven clock",
+                        "while an on-demand tablebase is generated (no nodes searched) the virtual clock advances 5 ms per progress report of the generator",
                         "the virtual clock advances with the nodes of the main search thread only (the thread that polls the limits), so that the verdict does not depend on how the OS schedules helper threads; slack = 2 polling intervals (1000 nodes each) + 5 ms of virtual time"]
     return rep.finish()
 
